@@ -108,6 +108,10 @@ def with_tag(sd, tag):
 # ---------------------------------------------------------------------------
 # rendering
 
+import re as _re
+_LOOKS_TYPED = _re.compile(r"^([0-9]+|[0-9]+\.[0-9]+|true|false|null|yes|no)$")
+
+
 def _scalar_text(a):
     t, s = a
     if t == "i":
@@ -227,6 +231,10 @@ def _render(sd, ind):
     if k == "scalar":
         if sd["v"] == ["n", ""] and tag:
             return [tag]          # value-less tagged node (e.g. `a: !del`)
+        if sd["v"][0] == "s" and _LOOKS_TYPED.match(sd["v"][1]) and (len(sd["v"][1]) + len(tag)) % 2 == 0:
+            # a string that looks like a number / bool / null: every other one is written as a BLOCK scalar
+            # (still a string for YAML, whatever tag is in front of it)
+            return [(tag + " " if tag else "") + "|-", pad + "  " + sd["v"][1]]
         return [(tag + " " if tag else "") + _scalar_text(sd["v"])]
     if k in ("required", "clear", "null"):
         return [tag]
